@@ -15,6 +15,9 @@ Inductive ytree :=
 | YInt (z : Z) | YFloat (q : Q) | YNaN | YStr (s : text) | YBool (b : bool) | YNull
 | YList (l : list ytree) | YMap (kvs : list (Z * ytree)).   (* names are interned by the harness *)
 
+Arguments YStr s%Z_scope.
+Arguments YMap kvs%Z_scope.
+
 (* ---- interned names (fixed ids; every other name gets an id >= 1000) ---- *)
 Definition K_StartTime := 1.  Definition K_Lane := 2.  Definition K_EndTime := 3.  Definition K_KeySounds := 4.
 Definition K_Bpm := 5.        Definition K_Multiplier := 6.
@@ -28,6 +31,8 @@ Definition row := list (Z * ytree).
 Record frame := mkFrame { f_cols : list Z; f_rows : list row }.
 Record chart := mkChart { c_hits : frame; c_holds : frame; c_bpms : frame; c_svs : frame;
                           c_meta : list ytree (* the 21 attributes in _write_meta order; tags as YList *) }.
+
+Arguments mkFrame (f_cols f_rows)%Z_scope.
 
 (* ---- dictionaries ---- *)
 Fixpoint assoc {A} (k : Z) (l : list (Z * A)) : option A :=
@@ -271,3 +276,21 @@ Fixpoint tree_eqb (strict : bool) (a b : ytree) {struct a} : bool :=
          end) kv
   | _, _ => false
   end.
+
+(* ---- instantiation with the live tables (Generated/Tables.v is rewritten from /repo on every run) ---- *)
+From RV Require Generated.Tables.
+Definition decode_default (e : Z * Z * list Z) : ytree :=
+  let '(tag, z, s) := e in
+  if tag =? 0 then YStr s
+  else if tag =? 1 then YInt z
+  else if tag =? 2 then YFloat (match s with [d] => Qmake z (Z.to_pos d) | _ => inject_Z z end)
+  else if tag =? 3 then YBool (negb (z =? 0))
+  else if tag =? 4 then YList []
+  else YNull.
+Module Live.
+  Definition meta_defaults : list (Z * ytree) :=
+    map (fun kd => (fst kd, decode_default (snd kd))) Tables.Tables.c06.meta_defaults.
+  Definition read := qua_read Tables.Tables.c06.hit_cols Tables.Tables.c06.hold_cols Tables.Tables.c06.bpm_cols
+                              Tables.Tables.c06.sv_cols meta_defaults.
+  Definition write := qua_write meta_defaults.
+End Live.
